@@ -256,7 +256,7 @@ Section Model.
     end.
 
   (* What reaches the receive buffer: qbft.Msg = the wire message and its values map. *)
-  Record qmsg := { q_id : nat; q_wire : wire; q_vm : vmap }.
+  Record qmsg := { q_id : N; q_wire : wire; q_vm : vmap }.
 
   Inductive verdict :=
   | VReject (r : reason)
@@ -316,7 +316,7 @@ Section Model.
      The deadliner is consulted only after every verification passed; getRecvBuffer (which creates
      the instance if needed) is evaluated next; the send to the buffer is the last step.  A full
      buffer blocks the send until ctx is done ("timeout enqueuing receive buffer"). *)
-  Definition handle (e : env) (st : state) (id : nat) (req : option wire) : result * bool * state :=
+  Definition handle (e : env) (st : state) (id : N) (req : option wire) : result * bool * state :=
     match decide e req with
     | VReject r => (Reject r, false, st)
     | VPass d w m =>
@@ -346,25 +346,25 @@ Section Model.
   (* -------------------------------------------------------------------------------------------- *)
   (* Labelled transition system *)
 
-  Definition snapshot := list (dutyv * list nat).     (* per existing instance: ids in its buffer, oldest first *)
+  Definition snapshot := list (dutyv * list N).     (* per existing instance: ids in its buffer, oldest first *)
 
   Definition snap (st : state) : snapshot := map (fun x => (fst x, map q_id (snd x))) st.
 
   Inductive label :=
-  | LHandle (id : nat) (e : env) (req : option wire) (res : result) (dl_called : bool) (after : snapshot)
+  | LHandle (id : N) (e : env) (req : option wire) (res : result) (dl_called : bool) (after : snapshot)
       (* one handle call: inputs, the returned error class, whether deadliner.Add was called, and
          the receive buffers of all instances after the call *)
-  | LDrain (d : dutyv) (ids : list nat)      (* the transport read these messages, in this order, from d's buffer *)
+  | LDrain (d : dutyv) (ids : list N)      (* the transport read these messages, in this order, from d's buffer *)
   | LDelete (d : dutyv).                      (* deleteInstanceIO(d) (duty expired) *)
 
-  Fixpoint ids_eqb (a b : list nat) : bool :=
+  Fixpoint ids_eqb (a b : list N) : bool :=
     match a, b with
     | [], [] => true
-    | x :: r, y :: s => Nat.eqb x y && ids_eqb r s
+    | x :: r, y :: s => N.eqb x y && ids_eqb r s
     | _, _ => false
     end.
 
-  Fixpoint snap_get (s : snapshot) (d : dutyv) : option (list nat) :=
+  Fixpoint snap_get (s : snapshot) (d : dutyv) : option (list N) :=
     match s with
     | [] => None
     | (d', l) :: r => if duty_eqb d' d then Some l else snap_get r d
@@ -377,10 +377,10 @@ Section Model.
   Definition snap_eqb (a b : snapshot) : bool :=
     Nat.eqb (length a) (length b) && snap_sub a b && snap_sub b a.
 
-  Fixpoint take_prefix (ids : list nat) (b : list qmsg) : option (list qmsg) :=
+  Fixpoint take_prefix (ids : list N) (b : list qmsg) : option (list qmsg) :=
     match ids, b with
     | [], _ => Some b
-    | i :: r, q :: s => if Nat.eqb i (q_id q) then take_prefix r s else None
+    | i :: r, q :: s => if N.eqb i (q_id q) then take_prefix r s else None
     | _ :: _, [] => None
     end.
 
@@ -457,7 +457,7 @@ Section Model.
     end.
 
   (* Ghost state of the monitor: the snapshot seen last (adjusted for reads and deletions). *)
-  Fixpoint snap_set (s : snapshot) (d : dutyv) (l : list nat) : snapshot :=
+  Fixpoint snap_set (s : snapshot) (d : dutyv) (l : list N) : snapshot :=
     match s with
     | [] => [(d, l)]
     | (d', l') :: r => if duty_eqb d' d then (d', l) :: r else (d', l') :: snap_set r d l
@@ -469,14 +469,14 @@ Section Model.
     | (d', l') :: r => if duty_eqb d' d then snap_del r d else (d', l') :: snap_del r d
     end.
 
-  Fixpoint drop_prefix (ids l : list nat) : option (list nat) :=
+  Fixpoint drop_prefix (ids l : list N) : option (list N) :=
     match ids, l with
     | [], _ => Some l
-    | i :: r, j :: s => if Nat.eqb i j then drop_prefix r s else None
+    | i :: r, j :: s => if N.eqb i j then drop_prefix r s else None
     | _ :: _, [] => None
     end.
 
-  Definition snap_get0 (s : snapshot) (d : dutyv) : list nat := match snap_get s d with Some l => l | None => [] end.
+  Definition snap_get0 (s : snapshot) (d : dutyv) : list N := match snap_get s d with Some l => l | None => [] end.
 
   Definition wire_duty (req : option wire) : option dutyv :=
     match req with
@@ -490,7 +490,7 @@ Section Model.
        rejected with the enqueue timeout (buffer of a fully verified message's duty is full)
                  => no buffer content changed (the instance of that duty exists afterwards);
        rejected otherwise => nothing changed at all. *)
-  Definition ghost_next (g : snapshot) (id : nat) (req : option wire) (res : result) : option snapshot :=
+  Definition ghost_next (g : snapshot) (id : N) (req : option wire) (res : result) : option snapshot :=
     match res with
     | Accept => match wire_duty req with
                 | Some d => Some (snap_set g d (snap_get0 g d ++ [id]))
@@ -508,7 +508,7 @@ Section Model.
 
   (* One observed call satisfies the property iff the buffers afterwards are as [ghost_next] says
      and, whenever the message got as far as the buffer, it is authentic and well formed. *)
-  Definition monitor_handle (g : snapshot) (id : nat) (e : env) (req : option wire) (res : result)
+  Definition monitor_handle (g : snapshot) (id : N) (e : env) (req : option wire) (res : result)
              (after : snapshot) : option snapshot :=
     match ghost_next g id req res with
     | Some g' => if (if needs_spec res then spec_ok e req else true) && snap_eqb g' after then Some g' else None
